@@ -5,7 +5,8 @@
    index storage — so "unchanged" covers rows, index contents and therefore every read. *)
 From Coq Require Import List Bool Arith.
 Import ListNotations.
-From GMS Require Import Store.C15Editor Store.C15EditorProofs.
+From Coq Require Import ZArith.
+From GMS Require Import Store.C15Editor Store.C15EditorProofs Store.C16Alias.
 
 (* failure at ANY row position: [pre] is the (arbitrarily long) run of row-edit calls that succeeded before the
    failing one; whatever ApplyEdits would have done, the statement reports the error and the session's table is
@@ -31,18 +32,65 @@ Theorem C15_stmt_atomic_injected_storage_error_at_every_call :
 Proof. exact stmt_atomic_injected. Qed.
 Print Assumptions C15_stmt_atomic_injected_storage_error_at_every_call.
 
-(* a statement all of whose calls succeed applies every one of its row changes (ApplyEdits total) *)
+(* a statement none of whose calls returns an error to the iterator (accumulated edits, errors handled by the row
+   iterator as in ON DUPLICATE KEY UPDATE / REPLACE, mid-statement IndexedAccess applies) applies every one of its row
+   changes (ApplyEdits total and compositional) *)
 Theorem C15_stmt_all_or_nothing :
-  forall (T E : Type) (apply : T -> list E -> T) (t : T) (cs : list (call E)),
-    all_good E cs = true -> (forall x, apply x [] = x) ->
-    run_stmt T E (total_apply T E apply) t cs = (ROk, apply t (good_edits E cs)).
+  forall (T E : Type) (apply : T -> list E -> T),
+    (forall x, apply x [] = x) -> (forall x a b, apply x (a ++ b) = apply (apply x a) b) ->
+    forall (t : T) (cs : list (call E)),
+      all_good E cs = true -> run_stmt T E (total_apply T E apply) t cs = (ROk, apply t (good_edits E cs)).
 Proof. exact stmt_all_or_nothing. Qed.
 Print Assumptions C15_stmt_all_or_nothing.
+
+(* the mid-statement apply (tableEditor.IndexedAccess, [CFlush]) and handled errors ([CHandled]) do not weaken
+   atomicity AS LONG AS the snapshot is a value copy: an instance of the first theorem with such calls in the prefix *)
+Theorem C15_stmt_atomic_with_mid_statement_apply_and_handled_errors :
+  forall (T E : Type) (apply_opt : nat -> T -> list E -> option T * T) (t : T) (e1 e2 : E) (post : list (call E)),
+    run_stmt T E apply_opt t ([CGood e1; CFlush; CHandled; CGood e2; CFlush] ++ CBad false :: post) = (RErr, t).
+Proof. intros. apply stmt_atomic_at_any_position. reflexivity. Qed.
+Print Assumptions C15_stmt_atomic_with_mid_statement_apply_and_handled_errors.
+
+(* ... which the implementation's snapshot is not: TableData.copy() shares the index storage rows that the
+   mid-statement ApplyEdits patches in place (model Store/C16Alias.v; witness = the self-referential FK finding) *)
+Theorem C15_snapshot_restore_with_shared_index_cells_refuted :
+  ~ restores 1 w_heap w_data [[10; 1]; [11; 2]]%Z.
+Proof. exact restoration_refuted. Qed.
+Print Assumptions C15_snapshot_restore_with_shared_index_cells_refuted.
+
+(* INSERT IGNORE (CheckpointingTableEditorIter: every row is its own statement): without a hard error every accepted
+   row is applied, ignorable errors skip their row ... *)
+Theorem C15_insert_ignore_applies_accepted_rows :
+  forall (T E : Type) (apply : T -> list E -> T),
+    (forall x, apply x [] = x) -> (forall x a b, apply x (a ++ b) = apply (apply x a) b) ->
+    forall (t : T) (cs : list (call E)),
+      no_hard E cs = true -> run_stmt_ckpt T E (total_apply T E apply) t cs = (ROk, apply t (good_edits E cs)).
+Proof. exact ckpt_success. Qed.
+Print Assumptions C15_insert_ignore_applies_accepted_rows.
+
+(* ... but a hard (storage) error at row k reports the error and keeps exactly the rows accepted before it *)
+Theorem C15_insert_ignore_hard_error_keeps_earlier_rows :
+  forall (T E : Type) (apply : T -> list E -> T),
+    (forall x, apply x [] = x) -> (forall x a b, apply x (a ++ b) = apply (apply x a) b) ->
+    forall (t : T) (pre post : list (call E)),
+      no_hard E pre = true ->
+      run_stmt_ckpt T E (total_apply T E apply) t (pre ++ CBad false :: post) = (RErr, apply t (good_edits E pre)).
+Proof. exact ckpt_hard_error_keeps_earlier_rows. Qed.
+Print Assumptions C15_insert_ignore_hard_error_keeps_earlier_rows.
+
+Theorem C15_insert_ignore_storage_error_is_not_atomic_refuted :
+  exists (cs : list (call nat)) (t t' : list nat),
+    run_stmt_ckpt (list nat) nat app_apply t cs = (RErr, t') /\ t' <> t.
+Proof.
+  exists [CGood 1; CBad true; CGood 3; CBad false; CGood 5], [7], [7; 1; 3].
+  split; [exact ckpt_keeps_rows_witness | discriminate].
+Qed.
+Print Assumptions C15_insert_ignore_storage_error_is_not_atomic_refuted.
 
 (* with a BEFORE INSERT trigger the TARGET table is still restored ... *)
 Theorem C15_trigger_statement_restores_target_table :
   forall (T E : Type) (apply_opt : nat -> T -> list E -> option T * T) (A : Type) (audit_edit : A -> E)
-         (t other : T) (cs : list (A * call E)),
+         (t other : T) (cs : list (option A * call E)),
     first_bad_trig E A cs = Some false ->
     exists other', run_stmt_trig T E apply_opt A audit_edit t other cs = (RErr, t, other').
 Proof. exact stmt_trig_target_atomic. Qed.
@@ -51,14 +99,25 @@ Print Assumptions C15_trigger_statement_restores_target_table.
 (* ... but the rows the trigger wrote into the other table for rows 1..k stay (memory.Session refuses savepoints,
    so triggerRollbackIter cannot undo them): the property is false of the faithful model *)
 Theorem C15_trigger_effects_survive_failure_refuted :
-  exists (cs : list (nat * call nat)) (other other' : list nat),
+  exists (cs : list (option nat * call nat)) (other other' : list nat),
     first_bad_trig nat nat cs = Some false /\
     run_stmt_trig (list nat) nat app_apply nat (fun a => a) [] other cs = (RErr, [], other') /\ other' <> other.
 Proof.
-  exists [(101, CGood 1); (102, CGood 2); (103, CBad false)], [], [101; 102; 103].
+  exists [(Some 101, CGood 1); (Some 102, CGood 2); (Some 103, CBad false)], [], [101; 102; 103].
   split; [reflexivity|]. split; [exact trigger_effects_survive | discriminate].
 Qed.
 Print Assumptions C15_trigger_effects_survive_failure_refuted.
+
+(* the same when the trigger body itself fails (SIGNAL) at row 3: the audit rows of rows 1 and 2 stay *)
+Theorem C15_trigger_signal_effects_survive_refuted :
+  exists (cs : list (option nat * call nat)) (other other' : list nat),
+    first_bad_trig nat nat cs = Some false /\
+    run_stmt_trig (list nat) nat app_apply nat (fun a => a) [] other cs = (RErr, [], other') /\ other' <> other.
+Proof.
+  exists [(Some 101, CGood 1); (Some 102, CGood 2); (None, CGood 3)], [], [101; 102].
+  split; [reflexivity|]. split; [exact trigger_signal_effects_survive | discriminate].
+Qed.
+Print Assumptions C15_trigger_signal_effects_survive_refuted.
 
 (* if ApplyEdits itself fails, StatementComplete returns nil, Close reports the error, and the edits ApplyEdits had
    already made stay in the session's table (not exhibited on the implementation: no fault hook inside ApplyEdits) *)
@@ -89,6 +148,17 @@ Example C15_apply_error_in_statement_complete_is_swallowed :
   run_stmt (list nat) nat first_fault_apply [7] [CGood 1; CGood 2] = (ROk, [7; 1; 2]).
 Proof. exact apply_error_in_statement_complete_is_swallowed. Qed.
 Print Assumptions C15_apply_error_in_statement_complete_is_swallowed.
+
+(* where the swallowing does harm (exhibited on the implementation): INSERT IGNORE, one-shot storage error in the
+   ApplyEdits of row 1; row 2 is an ignorable duplicate; the statement succeeds and row 1 is lost *)
+Theorem C15_swallowed_apply_error_loses_accepted_row_refuted :
+  exists (apply_opt : nat -> list nat -> list nat -> option (list nat) * list nat) (cs : list (call nat)) (t t' : list nat),
+    no_hard nat cs = true /\ run_stmt_ckpt (list nat) nat apply_opt t cs = (ROk, t') /\ t' <> t ++ good_edits nat cs.
+Proof.
+  exists first_fault_apply, [CGood 1; CBad true; CGood 3], [7], [7; 3].
+  split; [reflexivity|]. split; [exact swallowed_apply_error_loses_row | discriminate].
+Qed.
+Print Assumptions C15_swallowed_apply_error_loses_accepted_row_refuted.
 
 Example C15_nonvacuous :
   run_stmt (list nat) nat app_apply [7] (inject nat 3 [CGood 1; CGood 2; CGood 3; CGood 4]) = (RErr, [7]) /\
